@@ -350,6 +350,12 @@ func (fx *FX) addObl(kind, name, guard, goal string, pos token.Pos, note string)
 	if fx.oblAssumes == nil {
 		fx.oblAssumes = map[int]bool{}
 	}
+	if kind == "atomic" {
+		// not assumed afterwards: the ghost counter is overwritten right after the check, and assuming a failed
+		// "not yet acquired" next to "acquired" would make everything that follows vacuously true (a recorded known
+		// finding of this kind must not mask later obligations of the same function)
+		return o
+	}
 	before := len(fx.ctx.asserts)
 	fx.ctx.Assert(Imp(guard, goal))
 	if len(fx.ctx.asserts) > before {
